@@ -17,7 +17,7 @@ def items(tier):
         for L in corpus.lengths(tags, tier, maxL):
             out.append(mk("C04", p, "FindAllIndex", L, a, n=99, strategy=strat))
         # the other enumeration APIs at L=2: all of them for every third pattern (rotating) in quick, for all in thorough
-        apis = APIS2 + (APIS_T if tier != "quick" else [])
+        apis = APIS2 + (APIS_T if tier != "quick" and corpus.deep(tags) else [])
         if tier == "quick" and "e" not in tags:
             apis = [APIS2[(idx + k) % len(APIS2)] for k in range(2)]
         for api in apis:
